@@ -486,5 +486,246 @@ theorem payloadTruth_of_ok (e : Entry) (h : payloadOk e = true) : PayloadTruth e
         (fun _ => facts_init env σ) ha' ev hev
   · exact payloadTruth_of_noPayload e h
 
+/-! ### Soundness of the straight Will/Did shape -/
+
+theorem pre_stepA (env : Env) (st : St) (x : Atom) (hx : x.preOk = true) :
+    (stepA env st x).store = st.store ∧ (stepA env st x).evs = st.evs ∧
+    (stepA env st x).depth = st.depth ∧ (stepA env st x).queue = st.queue := by
+  unfold stepA
+  split
+  · cases x <;> simp [Atom.preOk] at hx
+    · exact ⟨rfl, rfl, rfl, rfl⟩
+    · simp only [stepAtom]; split <;> exact ⟨rfl, rfl, rfl, rfl⟩
+    · simp only [stepAtom]; split <;> exact ⟨rfl, rfl, rfl, rfl⟩
+  · exact ⟨rfl, rfl, rfl, rfl⟩
+
+theorem pre_runAtoms (env : Env) (as : List Atom) (st : St) (h : ∀ x ∈ as, x.preOk = true) :
+    (runAtoms env st as).store = st.store ∧ (runAtoms env st as).evs = st.evs ∧
+    (runAtoms env st as).depth = st.depth ∧ (runAtoms env st as).queue = st.queue := by
+  induction as generalizing st with
+  | nil => exact ⟨rfl, rfl, rfl, rfl⟩
+  | cons x xs ih =>
+    rw [runAtoms_cons]
+    obtain ⟨h1, h2, h3, h4⟩ := pre_stepA env st x (h x (by simp))
+    obtain ⟨i1, i2, i3, i4⟩ := ih (stepA env st x) (fun y hy => h y (by simp [hy]))
+    exact ⟨i1.trans h1, i2.trans h2, i3.trans h3, i4.trans h4⟩
+
+/-- a state in which nothing is held: posts are delivered at once -/
+def Quiet (st : St) : Prop := st.depth = 0 ∧ st.queue = []
+
+/-- `st'` extends `st` by deliveries none of which is a will-notification -/
+def Extends (st st' : St) : Prop := ∃ extra, st'.evs = st.evs ++ extra ∧ ∀ ev ∈ extra, ev.kind ≠ .will
+
+theorem Extends.refl (st : St) : Extends st st := ⟨[], by simp, by simp⟩
+
+theorem Extends.trans {a b c : St} (h1 : Extends a b) (h2 : Extends b c) : Extends a c := by
+  obtain ⟨e1, h1, n1⟩ := h1
+  obtain ⟨e2, h2, n2⟩ := h2
+  refine ⟨e1 ++ e2, by rw [h2, h1, List.append_assoc], ?_⟩
+  intro ev hev
+  simp only [List.mem_append] at hev
+  rcases hev with h | h
+  · exact n1 ev h
+  · exact n2 ev h
+
+theorem mid_stepAtom (env : Env) (x : Atom) (st : St) (hx : x.midOk = true) (hq : Quiet st) :
+    (stepAtom env st x).status = st.status ∧ Quiet (stepAtom env st x) ∧ Extends st (stepAtom env st x) := by
+  induction x generalizing st with
+  | post name k sj old new obs =>
+    have hk : k ≠ .will := by simpa [Atom.midOk] using hx
+    simp only [stepAtom, postNote, hq.1, if_true]
+    refine ⟨rfl, hq, ⟨[_], rfl, ?_⟩⟩
+    intro ev hev
+    simp only [List.mem_singleton] at hev
+    subst hev; exact hk
+  | «when» c x ih =>
+    simp only [stepAtom]
+    split
+    · exact ih st (by simpa [Atom.midOk] using hx) hq
+    · exact ⟨rfl, hq, Extends.refl st⟩
+  | nested x ih => exact ih st (by simpa [Atom.midOk] using hx) hq
+  | guard c => simp [Atom.midOk] at hx
+  | reject c => simp [Atom.midOk] at hx
+  | hold => simp [Atom.midOk] at hx
+  | release => simp [Atom.midOk] at hx
+  | capture v e => exact ⟨rfl, hq, Extends.refl _⟩
+  | set f e => exact ⟨rfl, hq, Extends.refl _⟩
+  | setK e => exact ⟨rfl, hq, Extends.refl _⟩
+  | setOrUnset f e => exact ⟨rfl, hq, Extends.refl _⟩
+  | dirty => exact ⟨rfl, hq, Extends.refl _⟩
+  | touch => exact ⟨rfl, hq, Extends.refl _⟩
+
+theorem mid_runAtoms (env : Env) (as : List Atom) (st : St) (h : ∀ x ∈ as, x.midOk = true) (hq : Quiet st) :
+    (runAtoms env st as).status = st.status ∧ Quiet (runAtoms env st as) ∧ Extends st (runAtoms env st as) := by
+  induction as generalizing st with
+  | nil => exact ⟨rfl, hq, Extends.refl st⟩
+  | cons x xs ih =>
+    rw [runAtoms_cons]
+    by_cases hr : st.status = .running
+    · have hs : stepA env st x = stepAtom env st x := by simp [stepA, hr]
+      rw [hs]
+      obtain ⟨s1, q1, e1⟩ := mid_stepAtom env x st (h x (by simp)) hq
+      obtain ⟨s2, q2, e2⟩ := ih (stepAtom env st x) (fun y hy => h y (by simp [hy])) q1
+      exact ⟨s2.trans s1, q2, e1.trans e2⟩
+    · rw [stepA_halted env st x hr, runAtoms_halted env st xs hr]
+      exact ⟨rfl, hq, Extends.refl st⟩
+
+theorem suf_stepAtom (env : Env) (x : Atom) (st : St) (hx : x.sufOk = true) (hq : Quiet st) :
+    (stepAtom env st x).store = st.store ∧ Quiet (stepAtom env st x) ∧ Extends st (stepAtom env st x) := by
+  induction x generalizing st with
+  | post name k sj old new obs =>
+    have hk : k ≠ .will := by simpa [Atom.sufOk] using hx
+    simp only [stepAtom, postNote, hq.1, if_true]
+    refine ⟨rfl, hq, ⟨[_], rfl, ?_⟩⟩
+    intro ev hev
+    simp only [List.mem_singleton] at hev
+    subst hev; exact hk
+  | «when» c x ih =>
+    simp only [stepAtom]
+    split
+    · exact ih st (by simpa [Atom.sufOk] using hx) hq
+    · exact ⟨rfl, hq, Extends.refl st⟩
+  | nested x ih => exact ih st (by simpa [Atom.sufOk] using hx) hq
+  | guard c => simp only [stepAtom]; split <;> exact ⟨rfl, hq, Extends.refl _⟩
+  | reject c => simp only [stepAtom]; split <;> exact ⟨rfl, hq, Extends.refl _⟩
+  | hold => simp [Atom.sufOk] at hx
+  | release => simp [Atom.sufOk] at hx
+  | capture v e => exact ⟨rfl, hq, Extends.refl _⟩
+  | set f e => simp [Atom.sufOk] at hx
+  | setK e => simp [Atom.sufOk] at hx
+  | setOrUnset f e => simp [Atom.sufOk] at hx
+  | dirty => exact ⟨rfl, hq, Extends.refl _⟩
+  | touch => exact ⟨rfl, hq, Extends.refl _⟩
+
+theorem suf_runAtoms (env : Env) (as : List Atom) (st : St) (h : ∀ x ∈ as, x.sufOk = true) (hq : Quiet st) :
+    (runAtoms env st as).store = st.store ∧ Quiet (runAtoms env st as) ∧ Extends st (runAtoms env st as) := by
+  induction as generalizing st with
+  | nil => exact ⟨rfl, hq, Extends.refl st⟩
+  | cons x xs ih =>
+    rw [runAtoms_cons]
+    by_cases hr : st.status = .running
+    · have hs : stepA env st x = stepAtom env st x := by simp [stepA, hr]
+      rw [hs]
+      obtain ⟨s1, q1, e1⟩ := suf_stepAtom env x st (h x (by simp)) hq
+      obtain ⟨s2, q2, e2⟩ := ih (stepAtom env st x) (fun y hy => h y (by simp [hy])) q1
+      exact ⟨s2.trans s1, q2, e1.trans e2⟩
+    · rw [stepA_halted env st x hr, runAtoms_halted env st xs hr]
+      exact ⟨rfl, hq, Extends.refl st⟩
+
+/-- sentence 2 for one run -/
+def WillDidRun (env : Env) (σ : Store) (r : St) : Prop :=
+  ∀ pre ev post, r.evs = pre ++ ev :: post → ev.kind = .will →
+    ev.now env = ev.before env σ ∧
+    ∃ d ∈ post, d.kind = .did ∧ didOf ev.name = some d.name ∧ ev.getterIn env d.snap = ev.getterIn env r.store
+
+/-- if the only will-notification of a list of deliveries is its head, a will found anywhere is that head -/
+theorem will_is_head {w : Ev} {rest pre post : List Ev} {ev : Ev}
+    (h : w :: rest = pre ++ ev :: post) (hk : ev.kind = .will) (hr : ∀ x ∈ rest, x.kind ≠ .will) :
+    pre = [] ∧ ev = w ∧ post = rest := by
+  cases pre with
+  | nil =>
+    simp only [List.nil_append, List.cons.injEq] at h
+    exact ⟨rfl, h.1.symm, h.2.symm⟩
+  | cons p ps =>
+    simp only [List.cons_append, List.cons.injEq] at h
+    have : ev ∈ rest := by rw [h.2]; simp
+    exact absurd hk (hr ev this)
+
+theorem willDidRun_of_straight (env : Env) (σ : Store) (as : List Atom) (h : straightWD as = true) :
+    WillDidRun env σ (runAtoms env (init σ) as) := by
+  unfold straightWD at h
+  split at h
+  · rename_i w sjW oW nW obsW rest hdrop
+    split at h
+    · rename_i d sjD oD nD obsD suf hdrop2
+      simp only [Bool.and_eq_true, beq_iff_eq, List.all_eq_true] at h
+      obtain ⟨⟨hmid, hsuf⟩, hpair⟩ := h
+      have has : as = as.takeWhile Atom.preOk ++ (.post w .will sjW oW nW obsW ::
+          (rest.takeWhile (fun a => !a.isDidPost) ++ (.post d .did sjD oD nD obsD :: suf))) := by
+        rw [← hdrop2, List.takeWhile_append_dropWhile, ← hdrop, List.takeWhile_append_dropWhile]
+      have hpre : ∀ x ∈ as.takeWhile Atom.preOk, x.preOk = true := by
+        intro x hx
+        exact List.all_eq_true.mp (@List.all_takeWhile _ Atom.preOk as) x hx
+      clear hdrop hdrop2
+      generalize as.takeWhile Atom.preOk = pre at has hpre
+      generalize rest.takeWhile (fun a => !a.isDidPost) = mid at has hmid
+      subst has
+      rw [runAtoms_append, runAtoms_cons, runAtoms_append, runAtoms_cons]
+      obtain ⟨s1, e1, d1, q1⟩ := pre_runAtoms env pre (init σ) hpre
+      generalize runAtoms env (init σ) pre = st1 at s1 e1 d1 q1
+      have hq1 : Quiet st1 := ⟨d1, q1⟩
+      by_cases hr : st1.status = .running
+      · -- the will is delivered at once, in the store of before the operation
+        have hW : stepA env st1 (.post w .will sjW oW nW obsW) =
+            deliver st1 ⟨w, .will, (sjW.map (eval env st1.vars st1.store .none)).getD .none,
+              oW.map (eval env st1.vars st1.store .none), nW.map (eval env st1.vars st1.store .none), obsW⟩ := by
+          simp only [stepA, hr, if_true, stepAtom, postNote, hq1.1]
+        rw [hW]
+        generalize hnW : (⟨w, .will, (sjW.map (eval env st1.vars st1.store .none)).getD .none,
+              oW.map (eval env st1.vars st1.store .none), nW.map (eval env st1.vars st1.store .none), obsW⟩ : Note)
+            = noteW
+        have hq2 : Quiet (deliver st1 noteW) := hq1
+        obtain ⟨s3, q3, x3⟩ := mid_runAtoms env mid (deliver st1 noteW) hmid hq2
+        generalize runAtoms env (deliver st1 noteW) mid = st3 at s3 q3 x3
+        have hr3 : st3.status = .running := by rw [s3]; exact hr
+        have hD : stepA env st3 (.post d .did sjD oD nD obsD) =
+            deliver st3 ⟨d, .did, (sjD.map (eval env st3.vars st3.store .none)).getD .none,
+              oD.map (eval env st3.vars st3.store .none), nD.map (eval env st3.vars st3.store .none), obsD⟩ := by
+          simp only [stepA, hr3, if_true, stepAtom, postNote, q3.1]
+        rw [hD]
+        generalize hnD : (⟨d, .did, (sjD.map (eval env st3.vars st3.store .none)).getD .none,
+              oD.map (eval env st3.vars st3.store .none), nD.map (eval env st3.vars st3.store .none), obsD⟩ : Note)
+            = noteD
+        have hq4 : Quiet (deliver st3 noteD) := q3
+        obtain ⟨s5, q5, x5⟩ := suf_runAtoms env suf (deliver st3 noteD) hsuf hq4
+        generalize runAtoms env (deliver st3 noteD) suf = st5 at s5 q5 x5
+        obtain ⟨ex1, hx1, n1⟩ := x3
+        obtain ⟨ex2, hx2, n2⟩ := x5
+        -- all deliveries of the run
+        have hevs : st5.evs = ⟨noteW.name, noteW.kind, noteW.sj, noteW.old, noteW.new, noteW.obs, st1.store⟩ ::
+            (ex1 ++ ⟨noteD.name, noteD.kind, noteD.sj, noteD.old, noteD.new, noteD.obs, st3.store⟩ :: ex2) := by
+          rw [hx2]
+          simp only [deliver, hx1, e1, init, List.nil_append, List.append_assoc, List.cons_append]
+        intro pre' ev post' hsplit hk
+        rw [hevs] at hsplit
+        have hrest : ∀ x ∈ ex1 ++ (⟨noteD.name, noteD.kind, noteD.sj, noteD.old, noteD.new, noteD.obs, st3.store⟩ : Ev) :: ex2,
+            x.kind ≠ .will := by
+          intro x hx
+          simp only [List.mem_append, List.mem_cons] at hx
+          rcases hx with hx | rfl | hx
+          · exact n1 x hx
+          · rw [← hnD]; simp
+          · exact n2 x hx
+        obtain ⟨_, rfl, rfl⟩ := will_is_head hsplit hk hrest
+        refine ⟨?_, ⟨noteD.name, noteD.kind, noteD.sj, noteD.old, noteD.new, noteD.obs, st3.store⟩, by simp, ?_, ?_, ?_⟩
+        · simp only [Ev.now, Ev.before, s1, init]
+        · rw [← hnD]
+        · rw [← hnW, ← hnD]; exact hpair
+        · simp only [Ev.getterIn, s5, deliver]
+      · -- the method returned or raised before the will: nothing is delivered
+        rw [stepA_halted env st1 _ hr, runAtoms_halted env st1 mid hr, stepA_halted env st1 _ hr,
+          runAtoms_halted env st1 suf hr]
+        intro pre' ev post' hsplit
+        rw [e1] at hsplit
+        simp [init] at hsplit
+    · simp at h
+  · simp at h
+
+/-- soundness of the Will/Did criterion -/
+theorem willDid_of_ok (e : Entry) (h : willDidOk e = true) : WillDid e := by
+  unfold willDidOk at h
+  simp only [Bool.or_eq_true] at h
+  rcases h with h | h
+  · exact willDid_of_noWill e h
+  · cases hfa : flatAtoms e.body with
+    | none => simp [hfa] at h
+    | some as =>
+      simp only [hfa] at h
+      intro env σ
+      have := willDidRun_of_straight env σ as h
+      unfold runOp
+      rw [flatAtoms_eq hfa, run_A]
+      exact this
+
 end Setters
 end DefconModel
